@@ -472,7 +472,7 @@ def print_digests(mod, tier, seed, indices):
     return 0
 
 
-def run_check(mod, tier, seed, runs=None, jobs=None, wall=None, selfcheck=True, verbose=False):
+def run_check(mod, tier, seed, runs=None, jobs=None, wall=None, selfcheck=True, verbose=False, evidence=True):
     t0 = time.monotonic()
     st = build.prepare()
     yaml = build.activate()
@@ -492,12 +492,15 @@ def run_check(mod, tier, seed, runs=None, jobs=None, wall=None, selfcheck=True, 
     picks = set([0, 1] + [rs.randrange(min(runs, 400)) for _ in range(k_self // 2)] +
                 [rs.randrange(runs) for _ in range(k_self - k_self // 2)])
     SIG_CAP = 3000000
+    dump_all = {} if os.environ.get('VERIF_DUMP_DIGESTS') else None
 
     def on_result(idx, out):
         agg['runs'] += 1
         agg['evals'] += out.get('evals', 1)
         if idx in picks:
             agg['digests'][idx] = out.get('log')
+        if dump_all is not None:
+            dump_all[idx] = out.get('log')
         for k, v in (out.get('probes') or {}).items():
             agg['probes'][k] += v
         for k, v in (out.get('faults') or {}).items():
@@ -592,6 +595,9 @@ def run_check(mod, tier, seed, runs=None, jobs=None, wall=None, selfcheck=True, 
         except Exception as exc:
             agg['harness_errors'].append((-1, 'determinism self-test could not run: %r' % (exc,)))
 
+    if dump_all is not None:
+        with open(os.environ['VERIF_DUMP_DIGESTS'], 'w') as f:
+            json.dump({str(k): v for k, v in sorted(dump_all.items())}, f)
     wall_s = time.monotonic() - t0
     cov = {
         'evaluations': agg['evals'],
@@ -622,10 +628,11 @@ def run_check(mod, tier, seed, runs=None, jobs=None, wall=None, selfcheck=True, 
         cov.update(mod.coverage_extra(agg))
     ev = {'property_id': prop, 'tier': tier, 'seed': seed, 'level': mod.LEVEL, 'coverage': cov,
           'assumptions': mod.ASSUMPTIONS, 'wall_s': round(wall_s, 2), 'violations': len(reported)}
-    os.makedirs(EVIDENCE_DIR, exist_ok=True)
-    with open(os.path.join(EVIDENCE_DIR, prop + '.json'), 'w') as f:
-        json.dump(ev, f, indent=1, sort_keys=True, default=repr)
-        f.write('\n')
+    if evidence:
+        os.makedirs(EVIDENCE_DIR, exist_ok=True)
+        with open(os.path.join(EVIDENCE_DIR, prop + '.json'), 'w') as f:
+            json.dump(ev, f, indent=1, sort_keys=True, default=repr)
+            f.write('\n')
 
     print('%s tier=%s seed=%d runs=%d evaluations=%d distinct_nontrivial=%d known=%s violations=%d wall=%.1fs (%d runs/h)' % (
         prop, tier, seed, agg['runs'], agg['evals'], len(agg['sigs']), dict(agg['known']), len(reported),
